@@ -168,7 +168,10 @@ PrefixDepth(n, ds) ==
                          SumW(ds.hdr[CHOOSE l \in 1..6 : n.n = <<"h1", "h2", "h3", "h4", "h5", "h6">>[l]])
                     [] OTHER -> 0
        IN own + inner
-P_C11(c) ==
+\* (strict = FALSE leaves lines that hold U+FE0F out of the string-width clause: used only to classify the
+\*  recorded finding emoji-presentation-sequence, never as the verdict)
+HasCode(ln, k) == \E j \in 1..Len(ln) : ~IsFrag(ln[j]) /\ ln[j][1] = k
+P_C11x(c, strict) ==
   LET z == RunTagged(c, "zero")  b == RunTagged(c, "base")  o == RunTagged(c, "ovf") IN
   /\ HasRun(z) => z.res.k = "narrow"
   /\ (HasRun(o) /\ o.w >= 1) => o.res.k = "ok"
@@ -176,7 +179,9 @@ P_C11(c) ==
   /\ (HasRun(o) /\ o.res.k = "ok" /\ o.w >= 1 /\ ~HasTable(Dom1(c, o)) /\ CfgOf(o.cfg).wraplinks) =>
         LET cf == CfgOf(o.cfg)
             bound == Max2(o.w, PrefixDepthSeq(Dom1(c, o), o.cfg.ds) + Max2(cf.minwrap, 5)) IN
-        \A i \in 1..Len(o.res.lines) : LineW(o.res.lines[i]) <= bound /\ (NoCtl(o.res.lines[i]) => o.res.sw[i] <= bound)
+        \A i \in 1..Len(o.res.lines) : LineW(o.res.lines[i]) <= bound
+                                        /\ ((NoCtl(o.res.lines[i]) /\ (strict \/ ~HasCode(o.res.lines[i], 65039))) => o.res.sw[i] <= bound)
+P_C11(c) == P_C11x(c, TRUE)
 
 (* ---- C13: output does not depend on the source formatting of collapsible whitespace -------- *)
 \* runs 1 and 2: the document and its rewrite r(d), same width and configuration
